@@ -41,6 +41,43 @@ def class_methods(tree, cls):
             return {n.name: n for n in node.body if isinstance(n, ast.FunctionDef)}
     raise TranslatorError(f'class {cls} not found')
 
+
+# ---------------------------------------------------------------------------------------------
+# names → roles: the tables identify a receiver by what it IS in its function (self, the i-th parameter, the k-th local in
+# order of first binding), not by what it is called, so that renaming a parameter or a local changes nothing
+# ---------------------------------------------------------------------------------------------
+
+def canon_names(fn):
+    if not isinstance(fn, (ast.FunctionDef, ast.AsyncFunctionDef)):
+        return {}
+    m = {}
+    a = fn.args
+    params = [x.arg for x in a.posonlyargs + a.args] + ([a.vararg.arg] if a.vararg else []) + [x.arg for x in a.kwonlyargs] + ([a.kwarg.arg] if a.kwarg else [])
+    for i, n in enumerate(params):
+        m[n] = 'self' if (i == 0 and n == 'self') else f'arg{i}'
+    stores = []
+    for node in ast.walk(fn):
+        if isinstance(node, ast.Name) and isinstance(node.ctx, (ast.Store, ast.Del)):
+            stores.append((node.lineno, node.col_offset, node.id))
+        elif isinstance(node, ast.ExceptHandler) and node.name:
+            stores.append((node.lineno, node.col_offset, node.name))
+        elif isinstance(node, ast.arg) and node.arg not in m:   # parameters of nested lambdas / functions
+            stores.append((node.lineno, node.col_offset, node.arg))
+    k = 0
+    for _, _, n in sorted(stores):
+        if n not in m:
+            k += 1; m[n] = f'loc{k}'
+    return m
+
+class _Renamer(ast.NodeTransformer):
+    def __init__(self, m): self.m = m
+    def visit_Name(self, node):
+        return ast.copy_location(ast.Name(id=self.m.get(node.id, node.id), ctx=node.ctx), node)
+
+def canon_expr(expr, m):
+    import copy
+    return ast.unparse(_Renamer(m).visit(copy.deepcopy(expr)))
+
 # ---------------------------------------------------------------------------------------------
 # buffer.py: inplace flags of internal pad/shift call sites, attribute-write table
 # ---------------------------------------------------------------------------------------------
@@ -61,9 +98,10 @@ def call_inplace(call, positional_index):
 
 def method_calls(fn, attr):
     out = []
+    m = canon_names(fn)
     for node in ast.walk(fn):
         if isinstance(node, ast.Call) and isinstance(node.func, ast.Attribute) and node.func.attr == attr:
-            recv = ast.unparse(node.func.value)
+            recv = canon_expr(node.func.value, m)
             out.append((node.lineno, node.col_offset, recv, node))
     out.sort()
     return out
@@ -71,6 +109,7 @@ def method_calls(fn, attr):
 def attr_writes(fn):
     """(receiver, attribute) of every attribute assignment (incl. augmented) in a function"""
     out = []
+    m = canon_names(fn)
     for node in ast.walk(fn):
         targets = []
         if isinstance(node, ast.Assign):
@@ -80,21 +119,21 @@ def attr_writes(fn):
         for t in targets:
             for sub in ast.walk(t):
                 if isinstance(sub, ast.Attribute) and isinstance(sub.ctx, ast.Store):
-                    out.append((ast.unparse(sub.value), sub.attr))
+                    out.append((canon_expr(sub.value, m), sub.attr))
                 if isinstance(sub, ast.Subscript) and isinstance(sub.ctx, ast.Store):
-                    out.append((ast.unparse(sub.value), '[]'))
+                    out.append((canon_expr(sub.value, m), '[]'))
     return sorted(set(out))
 
 BUFFER_SITES = [
     # (lean name, method, callee, receiver, occurrence index among such calls in the method)
-    ('padShiftInplace', 'pad', 'shift', 'self_copy', 0),
+    ('padShiftInplace', 'pad', 'shift', 'loc1', 0),            # the copy of self made first thing in pad()
     ('valuePadInplace', 'value', 'pad', 'self', 0),
-    ('addPadInplace1', '__add__', 'pad', 'right', 0),
-    ('addPadInplace2', '__add__', 'pad', 'right', 1),
-    ('andPadInplace', '__and__', 'pad', 'another', 0),
-    ('orPadInplace', '__or__', 'pad', 'another', 0),
-    ('xorPadInplace', '__xor__', 'pad', 'another', 0),
-    ('eqPadInplace', '__eq__', 'pad', 'another', 0),
+    ('addPadInplace1', '__add__', 'pad', 'loc2', 0),        # `right`, the alias of the second operand bound second in __add__
+    ('addPadInplace2', '__add__', 'pad', 'loc2', 1),
+    ('andPadInplace', '__and__', 'pad', 'arg1', 0),
+    ('orPadInplace', '__or__', 'pad', 'arg1', 0),
+    ('xorPadInplace', '__xor__', 'pad', 'arg1', 0),
+    ('eqPadInplace', '__eq__', 'pad', 'arg1', 0),
     ('hashPadInplace', '__hash__', 'pad', 'self', 0),
 ]
 
@@ -408,6 +447,7 @@ def gen_mutation_sites():
                 stack = [n for n in tree.body if not isinstance(n, (ast.FunctionDef, ast.ClassDef))]
                 while stack:
                     n = stack.pop(); nodes.append(n); stack.extend(ast.iter_child_nodes(n))
+            cm = canon_names(fn)
             for node in nodes:
                 targets = []
                 if isinstance(node, ast.Assign): targets = node.targets
@@ -416,12 +456,12 @@ def gen_mutation_sites():
                 for t in targets:
                     for sub in ast.walk(t):
                         if isinstance(sub, ast.Attribute) and isinstance(sub.ctx, (ast.Store, ast.Del)):
-                            rows.append((mod, qn, ast.unparse(sub.value), 'attr:' + sub.attr))
+                            rows.append((mod, qn, canon_expr(sub.value, cm), 'attr:' + sub.attr))
                         if isinstance(sub, ast.Subscript) and isinstance(sub.ctx, (ast.Store, ast.Del)):
-                            rows.append((mod, qn, ast.unparse(sub.value), 'item'))
+                            rows.append((mod, qn, canon_expr(sub.value, cm), 'item'))
                 if isinstance(node, ast.Call) and isinstance(node.func, ast.Attribute):
                     m = node.func.attr
-                    recv = ast.unparse(node.func.value)
+                    recv = canon_expr(node.func.value, cm)
                     if m in ('pad', 'shift') :
                         if call_inplace(node, 1):
                             rows.append((mod, qn, recv, f'call:{m}(inplace=True)'))
